@@ -37,6 +37,19 @@ ROUTES = [
     ("map_after_delete", "var m = new Map(); for (var i = 0; i < 6; i++) m.set('k' + i, mk(T + i)); m.delete('k2'); m.delete('k0'); garbage(); var out = []; m.forEach(function(v){ out.push(rd(v)); }); print(out);"),
     ("weakmap_value_live_key", "var k = {}; var wm = new WeakMap(); wm.set(k, mk(T)); garbage(); print(rd(wm.get(k)));"),
     ("weakmap_chain", "var k1 = {}; var wm = new WeakMap(); var k2 = {}; wm.set(k1, k2); wm.set(k2, mk(T)); k2 = null; garbage(); print(rd(wm.get(wm.get(k1))));"),
+    # ephemeron fix-point: chains of entries whose key is reachable only through the previous entry's value, inserted in
+    # forward, reverse and shuffled order, across one or two weak maps, followed by entries whose key is already dead
+    ("weakmap_chain_reverse_dead_tail", "var wm = new WeakMap(); var k1 = {}; (function(){ var k2 = {}, k3 = {}, k4 = {}; wm.set(k4, mk(T)); wm.set(k3, k4); wm.set(k2, k3); wm.set(k1, k2); wm.set({}, 0); })(); garbage(); "
+                                         "print(rd(wm.get(wm.get(wm.get(wm.get(k1))))));"),
+    ("weakmap_chain_forward_dead_tail", "var wm = new WeakMap(); var k1 = {}; (function(){ var k2 = {}, k3 = {}, k4 = {}; wm.set(k1, k2); wm.set(k2, k3); wm.set(k3, k4); wm.set(k4, mk(T)); wm.set({}, 0); wm.set({}, 1); })(); garbage(); "
+                                         "print(rd(wm.get(wm.get(wm.get(wm.get(k1))))));"),
+    ("weakmap_chain_shuffled_dead_between", "var wm = new WeakMap(); var k1 = {}; (function(){ var ks = [k1]; for (var i = 0; i < 6; i++) ks.push({}); var order = [3, 0, 5, 1, 4, 2]; "
+                                             "for (var j = 0; j < order.length; j++) { var i = order[j]; wm.set(ks[i], i == 5 ? mk(T) : ks[i + 1]); wm.set({}, j); } })(); garbage(); "
+                                             "var c = k1; for (var n = 0; n < 5; n++) c = wm.get(c); print(rd(wm.get(c)));"),
+    ("weakmap_chain_two_maps", "var wa = new WeakMap(), wb = new WeakMap(); var k1 = {}; (function(){ var k2 = {}, k3 = {}, k4 = {}; wb.set(k4, mk(T)); wa.set(k3, k4); wb.set(k2, k3); wa.set(k1, k2); wb.set({}, 0); wa.set({}, 0); })(); garbage(); "
+                                "print(rd(wb.get(wa.get(wb.get(wa.get(k1))))));"),
+    ("weakmap_chain_key_kept_by_value_closure", "var wm = new WeakMap(); var k1 = {}; (function(){ var k2 = {}, k3 = {}; wm.set(k3, mk(T)); wm.set(k2, function(){ return k3; }); wm.set(k1, {next: k2}); wm.set({}, 0); })(); garbage(); "
+                                                 "print(rd(wm.get(wm.get(wm.get(k1).next)())));"),
     ("weakset_live", "var k = mk(T); var ws = new WeakSet([k]); garbage(); print(ws.has(k), rd(k));"),
     ("array_elements", "var a = [mk(T), , mk(T + 'b')]; garbage(); print(rd(a[0]), 1 in a, rd(a[2]));"),
     ("array_sparse", "var a = []; a[5000] = mk(T); garbage(); print(rd(a[5000]), a.length);"),
